@@ -520,9 +520,15 @@ func (pool *TxPool) demoteUnexecutables() {
 			logging.Trace("Demoting pending transaction", "hash", hash)
 			pool.enqueueTx(hash, tx)
 		}
-		// If there's a gap in front, alert (should never happen) and postpone all transactions
-		if list.Len() > 0 && list.txs.Get(nonce) == nil {
-			for _, tx := range list.Cap(0) {
+		// If there's a gap, postpone every transaction above it. A gap in front should never happen; a gap
+		// further up is left behind when a reorg lowers the account nonce and only part of the dropped
+		// nonce range could be reinjected (the rest being rejected as underpriced or unpayable).
+		run := 0
+		for list.txs.Get(nonce+uint64(run)) != nil {
+			run++
+		}
+		if run < list.Len() {
+			for _, tx := range list.Cap(run) {
 				hash := tx.Hash()
 				logging.Error("Demoting invalidated transaction", "hash", hash)
 				pool.enqueueTx(hash, tx)
